@@ -7,9 +7,9 @@ package main
 // handle observes the truncation; os.Remove unlinks the name, open handles keep the inode.
 
 import (
+	"sort"
 	"go/types"
 	"path/filepath"
-	"sort"
 	"strings"
 
 	"golang.org/x/tools/go/ssa"
@@ -106,6 +106,44 @@ func addIO(m map[string]Intrinsic) {
 	m["os.MkdirAll"] = func(vm *VM, fn *ssa.Function, args []Value) Value {
 		vm.fs().dirs[cleanName(vm, args[0])] = true
 		return IfaceV{}
+	}
+	// filepath.Glob over the modelled file system: the documented semantics (the WHOLE pattern,
+	// directory part included, is a pattern; matching by filepath.Match; sorted result)
+	m["path/filepath.Glob"] = func(vm *VM, fn *ssa.Function, args []Value) Value {
+		f := vm.fs()
+		pat := constStr(vm, args[0], "filepath.Glob pattern")
+		if _, err := filepath.Match(pat, ""); err != nil {
+			return TupleV{SliceV{}, vm.newErrorStr("syntax error in pattern")}
+		}
+		seen := map[string]bool{}
+		var names []string
+		consider := func(name string) {
+			// every path component prefix that exists is a candidate
+			for p := name; p != "." && p != "/" && p != ""; p = filepath.Dir(p) {
+				if seen[p] {
+					continue
+				}
+				seen[p] = true
+				if ok, _ := filepath.Match(pat, p); ok {
+					names = append(names, p)
+				}
+			}
+		}
+		for name := range f.files {
+			consider(name)
+		}
+		for name := range f.dirs {
+			consider(name)
+		}
+		sort.Strings(names)
+		vals := make([]Value, len(names))
+		for i, n := range names {
+			vals[i] = mkStr(n)
+		}
+		if len(vals) == 0 {
+			return TupleV{SliceV{}, IfaceV{}}
+		}
+		return TupleV{vm.sliceFromValues(vals), IfaceV{}}
 	}
 	m["os.RemoveAll"] = func(vm *VM, fn *ssa.Function, args []Value) Value {
 		f := vm.fs()
